@@ -53,7 +53,11 @@ def run_graphs(ctx, lib, graphs, obs, classes, invariants, maxlen=60, jobs=8):
         tot_states += res.distinct
         tot_trans += res.generated
         rng = random.Random(ctx.seed)
-        walks, cov, tot = g and pipeline.walker.edge_cover(g, maxlen=maxlen, rng=rng)
+        if len(gr) > 3 and gr[3] == "pairs":
+            # every PAIR of consecutive transitions (the model's state does not remember how it was reached)
+            walks, cov, tot = pipeline.walker.edge_cover(pipeline.walker.line_graph(g), maxlen=maxlen, rng=rng)
+        else:
+            walks, cov, tot = g and pipeline.walker.edge_cover(g, maxlen=maxlen, rng=rng)
         edges_total += tot
         edges_cov += cov
         for cls in classes:
@@ -167,7 +171,7 @@ def c11(ctx):
             # copies that change kind (token / session, public -> private) and what logout / close do to their handles
             # (the identity tag of a data object cannot be carried over by C_CopyObject: secret keys only)
             ("c11-copy", consts(Tokens='{"t1"}', Acts='{"sess", "obj", "copy"}', MaxH="3", MaxO="2", LoginPins='{"P2"}'),
-             ["secret"]),
+             ["secret"], "pairs"),
         ]
         classes = ["secret", "data"]
     else:
